@@ -145,6 +145,8 @@ pub enum PStep {
     Panic,
     CallAddr(u16),
     WeakSelf,
+    /// the synchronous `Service::try_from_registry()` of service type k, called from inside a handler
+    TryFromRegistry(u8),
 }
 
 #[derive(Clone, Copy, Debug, PartialEq, Eq, Hash)]
